@@ -45,6 +45,16 @@ type EPIn struct {
 	Sig       string `json:"sig"`
 	Plugin    string `json:"plugin"`
 	RevOpt    string `json:"revopt"`
+	Meta      string `json:"meta"`
+	Extra     string `json:"-"` // bytes mode: an additional extended attribute of an unusual shape in the seed envelope
+}
+
+// user metadata the caller requires of the signature (EPIn.Meta "match": signed; "missing": not signed)
+func epRequired(in EPIn) map[string]string {
+	if in.Meta == "match" || in.Meta == "missing" {
+		return map[string]string{"io.verif.k1": "v1"}
+	}
+	return nil
 }
 
 type EPObs struct {
@@ -122,12 +132,28 @@ func epSignature(in EPIn, format string, id int) []byte {
 
 func epSignatureFor(in EPIn, format string, id int, d ocispec.Descriptor) []byte {
 	ch := epChain()
-	payload, _ := json.Marshal(map[string]interface{}{"targetArtifact": ocispec.Descriptor{MediaType: d.MediaType, Digest: d.Digest, Size: d.Size}})
+	target := ocispec.Descriptor{MediaType: d.MediaType, Digest: d.Digest, Size: d.Size}
+	if in.Meta == "match" {
+		target.Annotations = epRequired(in)
+	}
+	payload, _ := json.Marshal(map[string]interface{}{"targetArtifact": target})
 	var attrs []signature.Attribute
 	if in.Plugin != "none" {
 		attrs = pluginAttrs(pluginName, "1.0.0")
 	}
-	key := fmt.Sprintf("ep|%s|%v|%s", format, in.Plugin != "none", d.Digest)
+	switch in.Extra {
+	case "strKey":
+		attrs = append(attrs, signature.Attribute{Key: "io.verif.example/extra", Critical: true, Value: "x"})
+	case "intKey": // COSE header labels may be integers
+		if format == "cose" {
+			attrs = append(attrs, signature.Attribute{Key: int64(-70002), Critical: true, Value: "x"})
+		}
+	case "mapValue":
+		attrs = append(attrs, signature.Attribute{Key: "io.verif.example/extra", Critical: true, Value: map[string]interface{}{"a": []interface{}{1, "b"}}})
+	case "pluginNumber": // the plugin attribute itself is not a string
+		attrs = append(attrs, signature.Attribute{Key: "io.cncf.notary.verificationPlugin", Critical: true, Value: 7})[len(attrs):]
+	}
+	key := fmt.Sprintf("ep|%s|%v|%s|%v|%s", format, in.Plugin != "none", d.Digest, in.Meta == "match", in.Extra)
 	env := cachedEnv(key, func() []byte { return SignEnvelope(EnvSpec{Format: format, Chain: ch, Payload: payload, ExtAttrs: attrs}) })
 	switch in.Sig {
 	case "valid":
@@ -177,15 +203,15 @@ func runEntryPoints() int {
 		panicked, msg := guarded(func() {
 			switch in.Entry {
 			case "vVerify":
-				outcome, cerr = v.Verify(ctx, desc, sig, notation.VerifierVerifyOptions{ArtifactReference: artifactRef(), SignatureMediaType: mediaTypeOf(format)})
+				outcome, cerr = v.Verify(ctx, desc, sig, notation.VerifierVerifyOptions{ArtifactReference: artifactRef(), SignatureMediaType: mediaTypeOf(format), UserMetadata: epRequired(in)})
 			case "vVerifyBlob":
 				gen := func(alg digest.Algorithm) (ocispec.Descriptor, error) {
 					return ocispec.Descriptor{MediaType: mtA, Digest: alg.FromBytes(blobA), Size: int64(len(blobA))}, nil
 				}
-				outcome, cerr = v.VerifyBlob(ctx, gen, sig, notation.BlobVerifierVerifyOptions{SignatureMediaType: mediaTypeOf(format), TrustPolicyName: policyName})
+				outcome, cerr = v.VerifyBlob(ctx, gen, sig, notation.BlobVerifierVerifyOptions{SignatureMediaType: mediaTypeOf(format), TrustPolicyName: policyName, UserMetadata: epRequired(in)})
 			case "nVerifyBlob":
 				_, outcome, cerr = notation.VerifyBlob(ctx, v, bytes.NewReader(blobA), sig, notation.VerifyBlobOptions{ContentMediaType: mtA,
-					BlobVerifierVerifyOptions: notation.BlobVerifierVerifyOptions{SignatureMediaType: mediaTypeOf(format), TrustPolicyName: policyName}})
+					BlobVerifierVerifyOptions: notation.BlobVerifierVerifyOptions{SignatureMediaType: mediaTypeOf(format), TrustPolicyName: policyName, UserMetadata: epRequired(in)}})
 			case "nVerify":
 				store := memory.New()
 				repo := registry.NewRepository(store)
@@ -196,7 +222,7 @@ func runEntryPoints() int {
 				_, _, err = repo.PushSignature(ctx, mediaTypeOf(format), sig, art, map[string]string{"k": "v"})
 				must(err)
 				var outs []*notation.VerificationOutcome
-				_, outs, cerr = notation.Verify(ctx, v, repo, notation.VerifyOptions{ArtifactReference: artifactRepo + "@" + art.Digest.String(), MaxSignatureAttempts: 3})
+				_, outs, cerr = notation.Verify(ctx, v, repo, notation.VerifyOptions{ArtifactReference: artifactRepo + "@" + art.Digest.String(), MaxSignatureAttempts: 3, UserMetadata: epRequired(in)})
 				if cerr == nil {
 					if len(outs) == 1 {
 						outcome = outs[0]
@@ -341,10 +367,14 @@ func runFuzzBytes() int {
 			switch in.Target {
 			case "envelope":
 				format := []string{"jws", "cose"}[r.Intn(2)]
-				ep := EPIn{Construct: "both", Level: in.Level, Sig: "valid", Plugin: []string{"none", "none", "installed"}[r.Intn(3)], RevOpt: "validator"}
+				ep := EPIn{Construct: "both", Level: in.Level, Sig: "valid", Plugin: []string{"none", "none", "installed"}[r.Intn(3)], RevOpt: "validator",
+					Extra: []string{"", "", "strKey", "intKey", "mapValue", "pluginNumber"}[r.Intn(6)]}
 				v, err := epVerifier(ep, true)
 				must(err)
-				sig := mutate(r, epSignature(ep, format, c.ID))
+				sig := epSignature(ep, format, c.ID)
+				if ep.Extra == "" || r.Intn(3) != 0 {
+					sig = mutate(r, sig) // unusual seeds are also offered as they are
+				}
 				var outcome *notation.VerificationOutcome
 				var cerr error
 				blobAPI := r.Intn(2) == 0
